@@ -702,6 +702,8 @@ pub fn log_set_minimal_record() -> usize {
 }
 pub fn log_bytes() -> [u8; LOG_BYTES] { unsafe { BUF } }
 /// Arbitrary log bytes, concrete logical length (truncation offset enumerated by the harness family).
+pub fn log_set_next_record_id(log: &Log, id: u64) { log.next_record_id.store(id, Ordering::Relaxed); }
+pub fn log_next_record_id(log: &Log) -> u64 { log.next_record_id.load(Ordering::Relaxed) }
 pub fn log_poke(i: usize, v: u8) { unsafe { BUF[i] = v; } }
 pub fn log_set_len(n: usize) { unsafe { BUF = kani::any(); LEN = n; POS = 0; } }
 pub fn log_attach_reader(log: &Log, fd: i32) { *log.reading.write() = Some(Reading { id: 0, file: std::io::BufReader::with_capacity(0, vc::raw_file(fd)) }); }
